@@ -64,6 +64,17 @@
     view of the full statement is not used: the conclusion here is the stronger equality of
     item lists, which is why adjacent and empty Text items are excluded.
 
+    Merged form (Model/StoreDocMerged.v, Proofs/StoreDocMerged*.v) -- the closest to the full
+    statement.  [norm_doc d] writes every maximal run of neighbouring Text items (and of
+    neighbouring text pieces of an attribute value) as one item: the parser cannot return anything
+    else.  [C15_edited_roundtrip_merged_reachable]: for every document [s] of every reachable
+    world, [Known15m s = false -> pipeline_parse (show_doc s) = OOk ([], norm_doc (doc_of_store s))].
+    [Known15m] has the clauses K_noroot, K_el_before_dt, K_empty_text, K_both_quotes, K_unresolved
+    of [Known15] and, instead of K_adjacent_text and K_text_cdend, the single clause K_run_cdend:
+    the characters of a maximal run of Text children of an element contain the CDATA end mark --
+    exactly C15-ADJACENT-TEXT and C15-ATTR-TEXT-MOVED.  Neighbouring Text items as such are inside
+    the theorem ([C15_adjacent_text_merged_example]).  Witnesses: [C15_known15m_refuted].
+
     Connection to C14 (last section; Proofs/StoreIso.v, StoreIsoSim.v, StoreIsoDoc.v, StoreIsoQuery.v,
     StoreDocPiFlag.v).  The second sentence of C14 ([C14_query_depends_on_tree_only]) had one
     hypothesis left: [same_tree] of the table of the edited document and the table of the
@@ -95,6 +106,7 @@ From XmlRs Require Import Model.Store Model.StoreCheck Model.PrintableCheck Mode
   Proofs.DomTree Proofs.DomOpsInv Proofs.CharDataProofs Proofs.DomPrintable Proofs.DomL1RefineInv
   Proofs.DomOrder Proofs.DomOrderInv Model.StoreView
   Proofs.StoreDocInv Proofs.StoreDocShow Proofs.StoreDocWf Proofs.StoreDocReach
+  Model.StoreDocMerged Proofs.StoreDocMerged Proofs.StoreDocMergedReach
   Proofs.StoreDocPiFlag Proofs.StoreIso Proofs.StoreIsoSim Proofs.StoreIsoDoc Proofs.StoreIsoQuery.
 From XmlRs Require Model.CharData.
 Import ListNotations.
@@ -258,6 +270,39 @@ Example C15_roundtrip_example :
   /\ pipeline_parse (show_doc rt_store) = OOk ([], doc_of_store rt_store).
 Proof. exact rt_roundtrip. Qed.
 
+(** ** the merged form: neighbouring Text items are one item of the parsed document *)
+Theorem C15_norm_doc_same_print : forall d, display (norm_doc d) = display d.
+Proof. exact norm_doc_print. Qed.
+
+Theorem C15_edited_roundtrip_merged_partial : forall s,
+  TreeInv s -> Lex15 s -> UniqQ s -> Known15m s = false ->
+  pipeline_parse (show_doc s) = OOk ([], norm_doc (doc_of_store s)).
+Proof. exact edited_roundtrip_m. Qed.
+
+Theorem C15_edited_roundtrip_merged_reachable : forall init ops k s,
+  WInv2 init -> WLex15 init -> Forall op_facts_ok ops -> Forall op_facts_ok15 ops ->
+  doc_at (run init ops) k = Some s -> Known15m s = false ->
+  pipeline_parse (show_doc s) = OOk ([], norm_doc (doc_of_store s)).
+Proof. exact edited_roundtrip_m_reachable. Qed.
+
+(** every clause of [Known15m] is needed (order of [known15m_vector]; clause 3 = K_run_cdend has
+    the two listed histories as witnesses) *)
+Theorem C15_known15m_refuted :
+  refuted_m 0 /\ refuted_m 1 /\ refuted_m 2 /\ refuted_m 3 /\ refuted_m 4 /\ refuted_m 5.
+Proof.
+  split; [exact noroot_refuted_m|]. split; [exact el_before_dt_refuted_m|]. split; [exact empty_text_refuted_m|].
+  split; [exact run_cdend_refuted_m|]. split; [exact both_quotes_refuted_m | exact unresolved_refuted_m].
+Qed.
+
+(** <r>a</r> : create_text_node('b'), append -- excluded by [Known15], inside [Known15m]: the
+    parser returns one text item *)
+Example C15_adjacent_text_merged_example :
+  Known15 adj_store = true /\ Known15m adj_store = false
+  /\ pipeline_parse (show_doc adj_store) = OOk ([], norm_doc (doc_of_store adj_store))
+  /\ doc_children (doc_of_store adj_store) = [ItElement [114] None [] [ItText [97]; ItText [98]]]
+  /\ doc_children (norm_doc (doc_of_store adj_store)) = [ItElement [114] None [] [ItText [97;98]]].
+Proof. exact adjacent_text_merged. Qed.
+
 (** ** C14 with C15: the edited document and the re-parse of its print show the same tree to the
     evaluator; every supported query has the same value on both
 
@@ -315,3 +360,7 @@ Print Assumptions C15_piflag_reachable.
 Print Assumptions C15_piflag_checkable.
 Print Assumptions C15_iso_same_tree.
 Print Assumptions C15_same_doc_same_tree.
+Print Assumptions C15_norm_doc_same_print.
+Print Assumptions C15_edited_roundtrip_merged_partial.
+Print Assumptions C15_edited_roundtrip_merged_reachable.
+Print Assumptions C15_known15m_refuted.
